@@ -62,6 +62,297 @@ theorem tie_isDefaultBeaconID : Gen.Routing.isDefaultBeaconID = isDefaultBeaconI
 theorem tie_canon : Gen.Routing.getCanonicalBeaconID = canon := rfl
 theorem tie_compareBeaconIDs : Gen.Routing.compareBeaconIDs = compareBeaconIDs := rfl
 
+
+/-! ### ties: the anchored functions, statement by statement
+
+Golden copies of the normalised source of every function that reads or writes the routing tables (regenerated from
+/repo by tools/go2lean/routing.go on every run; tracing, logging and metrics statements are dropped). The model in
+Drand/Daemon/Routing.lean was written against exactly these statements; a change of any of them breaks the
+corresponding `rfl` and the check then searches for a concrete misrouted request with the thorough budget. -/
+
+theorem tie_script_readBeaconID : Gen.Routing.script_readBeaconID = [
+  "rcvBeaconID:=metadata.GetBeaconID()",
+  "if chainHashBytes:=metadata.GetChainHash(); len(chainHashBytes)!=0 {",
+  " chainHash:=fmt.Sprintf(\"%x\",chainHashBytes)",
+  " dd.state.RLock()",
+  " defer dd.state.RUnlock()",
+  " beaconIDByHash,isChainHashFound:=dd.chainHashes[chainHash]",
+  " if isChainHashFound {",
+  "  if rcvBeaconID!=\"\"&&!common.CompareBeaconIDs(rcvBeaconID,beaconIDByHash) {",
+  "   return \"\",fmt.Errorf(\"invalid chain hash: %q != %q\",rcvBeaconID,beaconIDByHash)",
+  "  }",
+  "  rcvBeaconID=beaconIDByHash",
+  " } else {",
+  "  rcvBeaconID=common.GetCanonicalBeaconID(rcvBeaconID)",
+  "  for id,bp := range dd.beaconProcesses {",
+  "   bp.state.RLock()",
+  "   group:=bp.group",
+  "   bp.state.RUnlock()",
+  "   if id==rcvBeaconID&&group==nil {",
+  "    metadata.BeaconID=rcvBeaconID",
+  "    return id,nil",
+  "   }",
+  "  }",
+  "  return \"\",fmt.Errorf(\"%w: %s out of %v\",common.ErrUnknownChainhash,chainHash,dd.chainHashes)",
+  " }",
+  "}",
+  "rcvBeaconID=common.GetCanonicalBeaconID(rcvBeaconID)",
+  "if metadata==nil {",
+  " metadata=&drand.Metadata{}",
+  "}",
+  "metadata.BeaconID=rcvBeaconID",
+  "return rcvBeaconID,nil"
+] := rfl
+
+theorem tie_script_getBeaconProcessByID : Gen.Routing.script_getBeaconProcessByID = [
+  "dd.state.Lock()",
+  "bp,isBeaconIDFound:=dd.beaconProcesses[beaconID]",
+  "dd.state.Unlock()",
+  "if isBeaconIDFound {",
+  " return bp,nil",
+  "}",
+  "return nil,fmt.Errorf(\"beacon id [%s] is not running\",beaconID)"
+] := rfl
+
+theorem tie_script_getBeaconProcessFromRequest : Gen.Routing.script_getBeaconProcessFromRequest = [
+  "beaconID,err:=dd.readBeaconID(metadata)",
+  "if err!=nil {",
+  " return nil,err",
+  "}",
+  "return dd.getBeaconProcessByID(beaconID)"
+] := rfl
+
+theorem tie_script_InstantiateBeaconProcess : Gen.Routing.script_InstantiateBeaconProcess = [
+  "beaconID=common.GetCanonicalBeaconID(beaconID)",
+  "bp,err:=NewBeaconProcess(ctx,logger,store,dd.completedDKGs,beaconID,dd.opts,dd.privGateway)",
+  "if err!=nil {",
+  " return nil,err",
+  "}",
+  "go bp.StartListeningForDKGUpdates(ctx)",
+  "dd.state.Lock()",
+  "dd.beaconProcesses[beaconID]=bp",
+  "dd.state.Unlock()",
+  "return bp,nil"
+] := rfl
+
+theorem tie_script_AddBeaconHandler : Gen.Routing.script_AddBeaconHandler = [
+  "chainHash:=chain2.NewChainInfo(bp.group).HashString()",
+  "bh:=dd.handler.RegisterNewBeaconHandler(&drandProxy{bp},chainHash)",
+  "dd.state.Lock()",
+  "dd.chainHashes[chainHash]=beaconID",
+  "dd.state.Unlock()",
+  "if common.IsDefaultBeaconID(beaconID) {",
+  " dd.handler.RegisterDefaultBeaconHandler(bh)",
+  " dd.state.Lock()",
+  " dd.chainHashes[common.DefaultChainHash]=beaconID",
+  " dd.state.Unlock()",
+  "}"
+] := rfl
+
+theorem tie_script_RemoveBeaconHandler : Gen.Routing.script_RemoveBeaconHandler = [
+  "if bp.group==nil {",
+  " return ",
+  "}",
+  "info:=chain2.NewChainInfo(bp.group)",
+  "dd.handler.RemoveBeaconHandler(info.HashString())",
+  "if common.IsDefaultBeaconID(beaconID) {",
+  " dd.handler.RemoveBeaconHandler(common.DefaultChainHash)",
+  "}"
+] := rfl
+
+theorem tie_script_RemoveBeaconProcess : Gen.Routing.script_RemoveBeaconProcess = [
+  "beaconID=common.GetCanonicalBeaconID(beaconID)",
+  "chainHash:=\"\"",
+  "if bp.group!=nil {",
+  " info:=chain2.NewChainInfo(bp.group)",
+  " chainHash=info.HashString()",
+  "}",
+  "dd.state.Lock()",
+  "delete(dd.beaconProcesses,beaconID)",
+  "delete(dd.chainHashes,chainHash)",
+  "if common.IsDefaultBeaconID(beaconID) {",
+  " delete(dd.chainHashes,common.DefaultChainHash)",
+  "}",
+  "dd.state.Unlock()"
+] := rfl
+
+theorem tie_script_LoadBeaconFromStore : Gen.Routing.script_LoadBeaconFromStore = [
+  "bp,err:=dd.InstantiateBeaconProcess(ctx,beaconID,store)",
+  "if err!=nil {",
+  " return nil,err",
+  "}",
+  "status,err:=dd.dkg.DKGStatus(ctx,&pdkg.DKGStatusRequest{BeaconID:beaconID})",
+  "if err!=nil {",
+  " return nil,err",
+  "}",
+  "freshRun:=status.Complete==nil",
+  "if freshRun {",
+  " g,err:=store.LoadGroup()",
+  " if err!=nil&&!errors.Is(err,fs.ErrNotExist) {",
+  "  return nil,err",
+  " }",
+  " if g==nil {",
+  "  return bp,nil",
+  " }",
+  " if gFP:=key.GroupFilePath(store); gFP!=\"\" {",
+  " }",
+  " share,err:=store.LoadShare()",
+  " if err!=nil {",
+  "  return nil,err",
+  " }",
+  " if err:=dd.dkg.Migrate(beaconID,g,share); err!=nil {",
+  "  return nil,err",
+  " }",
+  "}",
+  "if err:=bp.Load(ctx); err!=nil {",
+  " return nil,err",
+  "}",
+  "dd.AddBeaconHandler(ctx,beaconID,bp)",
+  "err=bp.StartBeacon(ctx,true)",
+  "if err!=nil {",
+  "}",
+  "return bp,err"
+] := rfl
+
+theorem tie_script_LoadBeaconFromDisk : Gen.Routing.script_LoadBeaconFromDisk = [
+  "store:=key.NewFileStore(dd.opts.ConfigFolderMB(),beaconID)",
+  "return dd.LoadBeaconFromStore(ctx,beaconID,store)"
+] := rfl
+
+theorem tie_script_LoadBeaconsFromDisk : Gen.Routing.script_LoadBeaconsFromDisk = [
+  "if singleBeacon&&singleBeaconName==\"\" {",
+  " return nil",
+  "}",
+  "stores,err:=key.NewFileStores(dd.opts.ConfigFolderMB())",
+  "if err!=nil {",
+  " return err",
+  "}",
+  "startedAtLeastOne:=false",
+  "for beaconID,fileStore := range stores {",
+  " if singleBeacon&&singleBeaconName!=beaconID {",
+  "  continue",
+  " }",
+  " _,err:=dd.LoadBeaconFromStore(ctx,beaconID,fileStore)",
+  " if err!=nil {",
+  "  return err",
+  " }",
+  " startedAtLeastOne=true",
+  "}",
+  "if !startedAtLeastOne {",
+  "}",
+  "return nil"
+] := rfl
+
+theorem tie_script_LoadBeacon : Gen.Routing.script_LoadBeacon = [
+  "beaconID,err:=dd.readBeaconID(in.GetMetadata())",
+  "if err!=nil {",
+  " return nil,err",
+  "}",
+  "_,err=dd.getBeaconProcessByID(beaconID)",
+  "if err==nil {",
+  " return nil,fmt.Errorf(\"beacon id [%s] is already running\",beaconID)",
+  "}",
+  "_,err=dd.LoadBeaconFromDisk(ctx,beaconID)",
+  "if err!=nil {",
+  " return nil,err",
+  "}",
+  "metadata:=drand.NewMetadata(dd.version.ToProto())",
+  "return &drand.LoadBeaconResponse{Metadata:metadata},nil"
+] := rfl
+
+theorem tie_script_Shutdown : Gen.Routing.script_Shutdown = [
+  "if in.GetMetadata().GetBeaconID()==\"\" {",
+  " dd.Stop(ctx)",
+  "} else {",
+  " beaconID,err:=dd.readBeaconID(in.GetMetadata())",
+  " if err!=nil {",
+  "  return nil,err",
+  " }",
+  " bp,err:=dd.getBeaconProcessByID(beaconID)",
+  " if err!=nil {",
+  "  return nil,err",
+  " }",
+  " dd.RemoveBeaconHandler(ctx,beaconID,bp)",
+  " bp.Stop(ctx)",
+  " <-bp.WaitExit()",
+  " dd.RemoveBeaconProcess(ctx,beaconID,bp)",
+  "}",
+  "metadata:=drand.NewMetadata(dd.version.ToProto())",
+  "metadata.BeaconID=in.GetMetadata().GetBeaconID()",
+  "return &drand.ShutdownResponse{Metadata:metadata},nil"
+] := rfl
+
+theorem tie_script_storeDKGOutput : Gen.Routing.script_storeDKGOutput = [
+  "bp.state.Lock()",
+  "defer bp.state.Unlock()",
+  "bp.group=group",
+  "bp.share=share",
+  "bp.chainHash=public.NewChainInfo(bp.group).Hash()",
+  "err:=bp.store.SaveGroup(group)",
+  "if err!=nil {",
+  " return err",
+  "}",
+  "err=bp.store.SaveShare(share)",
+  "if err!=nil {",
+  " return err",
+  "}",
+  "bp.opts.dkgCallback(ctx,group)",
+  "return nil"
+] := rfl
+
+theorem tie_script_dkgCallback : Gen.Routing.script_dkgCallback = ["beaconID:=common.GetCanonicalBeaconID(group.ID)", "drandDaemon.state.Lock()", "bp,isPresent:=drandDaemon.beaconProcesses[beaconID]", "drandDaemon.state.Unlock()", "if isPresent {", " drandDaemon.AddBeaconHandler(ctx,beaconID,bp)", "}"] := rfl
+
+theorem tie_serviceMethods : Gen.Routing.serviceMethods = ["PartialBeacon", "PublicRand", "PublicRandStream", "ChainInfo", "SyncChain", "GetIdentity", "Status", "PublicKey", "GroupFile", "Shutdown", "BackupDatabase", "StartFollowChain", "StartCheckChain", "KeypairFor", "Stop"] := rfl
+
+theorem tie_serviceMethodsBypassingRouting : Gen.Routing.serviceMethodsBypassingRouting = [] := rfl
+
+theorem tie_script_http_RegisterNewBeaconHandler : Gen.Routing.script_http_RegisterNewBeaconHandler = [
+  "h.state.Lock()",
+  "defer h.state.Unlock()",
+  "bh:=&BeaconHandler{context:h.context,client:c,latestRound:0,pending:nil,chainInfo:nil,version:h.version,log:h.log}",
+  "h.beacons[chainHash]=bh",
+  "return bh"
+] := rfl
+
+theorem tie_script_http_RemoveBeaconHandler : Gen.Routing.script_http_RemoveBeaconHandler = [
+  "h.state.Lock()",
+  "defer h.state.Unlock()",
+  "delete(h.beacons,chainHash)"
+] := rfl
+
+theorem tie_script_http_RegisterDefaultBeaconHandler : Gen.Routing.script_http_RegisterDefaultBeaconHandler = [
+  "h.state.Lock()",
+  "defer h.state.Unlock()",
+  "h.beacons[common.DefaultChainHash]=bh"
+] := rfl
+
+theorem tie_script_http_getBeaconHandler : Gen.Routing.script_http_getBeaconHandler = [
+  "chainHashStr:=fmt.Sprintf(\"%x\",chainHash)",
+  "if chainHashStr==\"\" {",
+  " chainHashStr=common.DefaultChainHash",
+  "}",
+  "h.state.RLock()",
+  "defer h.state.RUnlock()",
+  "bh,exists:=h.beacons[chainHashStr]",
+  "if !exists {",
+  " return nil,fmt.Errorf(\"there is no BeaconHandler for beaconHash [%s] in our beacons [%v]. \"+\"Is the chain hash correct?. Please check it\",chainHashStr,h.beacons)",
+  "}",
+  "return bh,nil"
+] := rfl
+
+theorem tie_script_http_readChainHash : Gen.Routing.script_http_readChainHash = [
+  "var err error=",
+  "chainHashHex:=make([]byte,0)",
+  "chainHash:=chi.URLParam(r,chainHashParamKey)",
+  "if chainHash!=\"\" {",
+  " chainHashHex,err=hex.DecodeString(chainHash)",
+  " if err!=nil {",
+  "  return nil,fmt.Errorf(\"unable to decode chain hash %s: %w\",chainHash,err)",
+  " }",
+  "}",
+  "return chainHashHex,nil"
+] := rfl
+
 /-! ### beacon ids and chain-hash keys -/
 
 private theorem isDefault_iff (id : Id) : isDefaultBeaconID id = true ↔ (id = "default" ∨ id = "") := by
@@ -821,5 +1112,470 @@ theorem c19_table_inv_counterexample :
   rcases hk with hk | ⟨hk, _⟩
   · exact absurd hk (by decide)
   · exact absurd hk (by decide)
+
+
+/-! ### stopping a chain: its id and hash stop resolving, the others keep working -/
+
+private theorem shutdown_eq {s : State} {md : Option Req} {x : Id} {bp : Proc} (hr : route s md = .ok (x, bp)) :
+    shutdown s md = (removeBeaconProcess (removeBeaconHandler s x bp) x bp, .ok ()) := by
+  obtain ⟨h1, h2⟩ := route_ok_iff.1 hr
+  unfold shutdown getBeaconProcessByID
+  rw [h1]; simp only; rw [h2]
+
+private theorem removeHandler_procs (s : State) (x : Id) (bp : Proc) :
+    (removeBeaconHandler s x bp).procs = s.procs := by
+  unfold removeBeaconHandler
+  cases bp.group with
+  | none => rfl
+  | some g => simp only; split <;> rfl
+
+private theorem removeHandler_hashes (s : State) (x : Id) (bp : Proc) :
+    (removeBeaconHandler s x bp).hashes = s.hashes := by
+  unfold removeBeaconHandler
+  cases bp.group with
+  | none => rfl
+  | some g => simp only; split <;> rfl
+
+private theorem removeProcess_procs (s : State) (x : Id) (hx : canon x = x) (bp : Proc) (j : Id) :
+    aget j (removeBeaconProcess s x bp).procs = if j = x then none else aget j s.procs := by
+  unfold removeBeaconProcess
+  simp only [hx]
+  split <;> simp [aget_adel]
+
+/-- **After a chain is stopped its id and hash stop resolving.** If `Shutdown` is called with a request that resolves to
+the process `x`, the call succeeds, `x` is not running afterwards, no request whatsoever is handed to `x`, no entry of
+either routing table refers to `x`, and the chain hash of its group is a key of neither table. -/
+theorem c19_stop_unresolves (s : State) (hs : Inv s) (md : Option Req) (x : Id) (bp : Proc)
+    (hr : route s md = .ok (x, bp)) :
+    (shutdown s md).2 = .ok () ∧
+    aget x (shutdown s md).1.procs = none ∧
+    (∀ md' q, route (shutdown s md).1 md' ≠ .ok (x, q)) ∧
+    (∀ k id, aget k (shutdown s md).1.hashes = some id → canon id ≠ x) ∧
+    (∀ k r, aget k (shutdown s md).1.http = some r → r.id ≠ x) ∧
+    (∀ g, bp.group = some g → aget (hexStr g.hash) (shutdown s md).1.hashes = none ∧
+        aget (hexStr g.hash) (shutdown s md).1.http = none) := by
+  have hinv : Inv (shutdown s md).1 := inv_shutdown hs md
+  have hx : canon x = x := readBeaconID_canon (route_ok_iff.1 hr).1
+  have hgone : aget x (shutdown s md).1.procs = none := by
+    rw [shutdown_eq hr]; simp only [removeProcess_procs _ x hx]; simp
+  refine ⟨by rw [shutdown_eq hr], hgone, ?_, ?_, ?_, ?_⟩
+  · intro md' q h
+    have := (route_ok_iff.1 h).2
+    rw [hgone] at this; cases this
+  · intro k id h e
+    obtain ⟨p, _, hp, _⟩ := hinv.hashOk k id h
+    rw [e, hgone] at hp; cases hp
+  · intro k r h e
+    obtain ⟨p, _, hp, _⟩ := hinv.httpOk k r h
+    rw [e, hgone] at hp; cases hp
+  · intro g hg
+    rw [shutdown_eq hr]
+    constructor
+    · unfold removeBeaconProcess
+      simp only [hg, hx]
+      split <;> simp [aget_adel]
+    · have : (removeBeaconProcess (removeBeaconHandler s x bp) x bp).http = (removeBeaconHandler s x bp).http := by
+        unfold removeBeaconProcess; simp only; split <;> rfl
+      rw [this]
+      unfold removeBeaconHandler
+      simp only [hg]
+      split <;> simp [aget_adel]
+
+/-- distinct running processes have distinct, non-empty chain hashes (the beacon id is part of the chain-hash preimage,
+C17, SHA-256 is collision free on the chains in play, and a digest has 32 bytes) -/
+structure HashesOK (s : State) : Prop where
+  unique : ∀ i j p q g g', aget i s.procs = some p → aget j s.procs = some q → p.group = some g →
+    q.group = some g' → hexStr g.hash = hexStr g'.hash → i = j
+  nonempty : ∀ i p g, aget i s.procs = some p → p.group = some g → g.hash ≠ []
+
+/-- a request keeps its answer when the process that answers it and the table entry of its chain hash are unchanged -/
+private theorem route_stable {s s' : State} {md : Option Req} {y : Id} {q : Proc} (h : route s md = .ok (y, q))
+    (hp : aget y s'.procs = aget y s.procs)
+    (hh : ∀ m, md = some m → m.hash ≠ [] → aget (hexStr m.hash) s'.hashes = aget (hexStr m.hash) s.hashes) :
+    route s' md = .ok (y, q) := by
+  obtain ⟨hr, hq⟩ := route_ok_iff.1 h
+  apply route_ok_iff.2
+  refine ⟨?_, by rw [hp]; exact hq⟩
+  cases md with
+  | none => rw [rb_none] at hr ⊢; exact hr
+  | some m =>
+    by_cases he : m.hash = []
+    · rw [rb_nohash s m he] at hr; rw [rb_nohash s' m he]; exact hr
+    · have hh' := hh m rfl he
+      cases hk : aget (hexStr m.hash) s.hashes with
+      | some id' =>
+        rw [rb_known s m he id' hk] at hr
+        rw [rb_known s' m he id' (by rw [hh', hk])]
+        exact hr
+      | none =>
+        rw [rb_unknown s m he hk] at hr
+        rw [rb_unknown s' m he (by rw [hh', hk])]
+        have hy : canon m.id = y := by
+          split at hr
+          · split at hr
+            · cases hr; rfl
+            · cases hr
+          · cases hr
+        rw [hy] at hr ⊢
+        rw [hp]
+        exact hr
+
+/-- **The others keep working.** Stopping `x` leaves every other running process in place, every request that was
+answered by another process `y` is still answered by the same process object, and every HTTP path that selected a
+handler of another process still selects it. -/
+theorem c19_remove_local (s : State) (hs : Inv s) (hu : HashesOK s) (md : Option Req) (x : Id) (bp : Proc)
+    (hr : route s md = .ok (x, bp)) :
+    (∀ y, y ≠ x → aget y (shutdown s md).1.procs = aget y s.procs) ∧
+    (∀ md' y q, y ≠ x → route s md' = .ok (y, q) → route (shutdown s md).1 md' = .ok (y, q)) ∧
+    (∀ h r, r.id ≠ x → getBeaconHandler s h = some r → getBeaconHandler (shutdown s md).1 h = some r) := by
+  have hx : canon x = x := readBeaconID_canon (route_ok_iff.1 hr).1
+  have hbp : aget x s.procs = some bp := (route_ok_iff.1 hr).2
+  have hprocs : ∀ y, y ≠ x → aget y (shutdown s md).1.procs = aget y s.procs := by
+    intro y hy
+    rw [shutdown_eq hr]
+    simp only [removeProcess_procs _ x hx, if_neg hy, removeHandler_procs]
+  -- a chain-hash key whose entry belongs to another process is not among the deleted keys
+  have hkeep : ∀ k id, aget k s.hashes = some id → canon id ≠ x →
+      aget k (shutdown s md).1.hashes = some id := by
+    intro k id hk hne
+    obtain ⟨p, g, hp, hg, hkg⟩ := hs.hashOk k id hk
+    rw [shutdown_eq hr]
+    have hk2 : isDefaultBeaconID x = true → k ≠ defaultChainHash := by
+      intro hd e
+      rcases hkg with hkg | ⟨_, hcd⟩
+      · rw [e] at hkg; exact absurd hkg.symm (c19_hex_ne_default _)
+      · have : x = defaultBeaconID := by rw [← hx]; exact canon_of_default hd
+        exact hne (by rw [hcd, this])
+    cases hbg : bp.group with
+    | none =>
+      have hk1 : k ≠ "" := by
+        intro e
+        rcases hkg with hkg | ⟨hkg, _⟩
+        · rw [e] at hkg
+          exact hu.nonempty _ p g hp hg ((hexStr_eq_empty_iff _).1 hkg.symm)
+        · rw [e] at hkg; exact absurd hkg (by decide)
+      unfold removeBeaconProcess
+      simp only [hx, removeHandler_hashes, hbg]
+      split
+      · rename_i hd
+        simp only [aget_adel, if_neg (hk2 hd), if_neg hk1]; exact hk
+      · simp only [aget_adel, if_neg hk1]; exact hk
+    | some gx =>
+      have hk1 : k ≠ hexStr gx.hash := by
+        intro e
+        rcases hkg with hkg | ⟨hkg, _⟩
+        · exact hne (hu.unique (canon id) x p bp g gx hp hbp hg hbg (by rw [← hkg, e]))
+        · rw [e] at hkg; exact absurd hkg (c19_hex_ne_default _)
+      unfold removeBeaconProcess
+      simp only [hx, removeHandler_hashes, hbg]
+      split
+      · rename_i hd
+        simp only [aget_adel, if_neg (hk2 hd), if_neg hk1]; exact hk
+      · simp only [aget_adel, if_neg hk1]; exact hk
+  refine ⟨hprocs, ?_, ?_⟩
+  · intro md' y q hy hroute
+    refine route_stable hroute (hprocs y hy) ?_
+    intro m hm hne
+    subst hm
+    cases hk : aget (hexStr m.hash) s.hashes with
+    | some id' =>
+      have hy' : canon id' = y := by
+        have := (c19_sound s hs _ _ _ hroute).2.2.1 m rfl hne id' hk
+        exact this.1.symm
+      exact hkeep _ _ hk (by rw [hy']; exact hy)
+    | none =>
+      -- deletions do not create entries
+      cases hk' : aget (hexStr m.hash) (shutdown s md).1.hashes with
+      | none => rfl
+      | some id'' =>
+        rw [shutdown_eq hr] at hk'
+        unfold removeBeaconProcess at hk'
+        simp only [hx, removeHandler_hashes] at hk'
+        split at hk'
+        · have := (aget_adel_some (aget_adel_some hk').2).2
+          rw [hk] at this; cases this
+        · have := (aget_adel_some hk').2
+          rw [hk] at this; cases this
+  · intro h r hrid hsel
+    obtain ⟨p, g, hp, hgen, hg, hdef, hhash⟩ := c19_http s hs h r hsel
+    have hhttp : (shutdown s md).1.http = (removeBeaconHandler s x bp).http := by
+      rw [shutdown_eq hr]; unfold removeBeaconProcess; simp only; split <;> rfl
+    -- the key looked up is not one of the deleted keys
+    have hkeepHttp : ∀ key, aget key s.http = some r → (key = defaultChainHash → r.id = defaultBeaconID) →
+        (key ≠ defaultChainHash → hexStr g.hash = key) →
+        aget key (removeBeaconHandler s x bp).http = some r := by
+      intro key hsel' hd1 hd2
+      unfold removeBeaconHandler
+      cases hbg : bp.group with
+      | none => exact hsel'
+      | some gx =>
+        simp only
+        have hk1 : key ≠ hexStr gx.hash := by
+          intro e
+          by_cases hkd : key = defaultChainHash
+          · rw [hkd] at e; exact absurd e.symm (c19_hex_ne_default _)
+          · exact hrid (hu.unique r.id x p bp g gx hp hbp hg hbg (by rw [hd2 hkd, e]))
+        split
+        · rename_i hd
+          have hk2 : key ≠ defaultChainHash := by
+            intro e
+            have : x = defaultBeaconID := by rw [← hx]; exact canon_of_default hd
+            exact hrid (by rw [hd1 e, this])
+          simp only [aget_adel, if_neg hk2, if_neg hk1]; exact hsel'
+        · simp only [aget_adel, if_neg hk1]; exact hsel'
+    by_cases he : h = []
+    · rw [(c19_http_default_only _ h).1 he, hhttp]
+      rw [(c19_http_default_only _ h).1 he] at hsel
+      exact hkeepHttp _ hsel (fun _ => hdef he) (fun hne => absurd rfl hne)
+    · rw [((c19_http_default_only _ h).2 he).1, hhttp]
+      rw [((c19_http_default_only _ h).2 he).1] at hsel
+      exact hkeepHttp _ hsel (fun e => absurd e (c19_hex_ne_default _)) (fun _ => hhash he)
+
+
+/-! ### loading a chain registers it -/
+
+/-- **A successful load makes the chain reachable by its id, by its hash, and by both.** When `LoadBeacon` resolves to
+an id `x` that is not running and whose key folder holds a group `g` (with this node as a member), the call succeeds,
+a new process object with group `g` runs under `x`, both tables get the entry of `g`'s chain hash (and the `default`
+entries when `x` is the default id), and requests naming `x`, the hash, or both are handed to that object; the HTTP
+handler table selects it for the hash. -/
+theorem c19_load_registers (s : State) (md : Option Req) (x : Id) (g : Group)
+    (hr : readBeaconID s md = .ok x) (hn : aget x s.procs = none) (hd : aget x s.disk = some (.group g)) :
+    (loadBeacon s md).2 = .ok () ∧
+    ∃ p, aget x (loadBeacon s md).1.procs = some p ∧ p.group = some g ∧
+      aget (hexStr g.hash) (loadBeacon s md).1.hashes = some x ∧
+      aget (hexStr g.hash) (loadBeacon s md).1.http = some ⟨x, p.gen⟩ ∧
+      (x = defaultBeaconID → aget defaultChainHash (loadBeacon s md).1.hashes = some x ∧
+        aget defaultChainHash (loadBeacon s md).1.http = some ⟨x, p.gen⟩) ∧
+      route (loadBeacon s md).1 (some ⟨x, []⟩) = .ok (x, p) ∧
+      (g.hash ≠ [] →
+        route (loadBeacon s md).1 (some ⟨"", g.hash⟩) = .ok (x, p) ∧
+        route (loadBeacon s md).1 (some ⟨x, g.hash⟩) = .ok (x, p) ∧
+        getBeaconHandler (loadBeacon s md).1 g.hash = some ⟨x, p.gen⟩) := by
+  have hx : canon x = x := readBeaconID_canon hr
+  let bp : Proc := { (instantiate s x).2 with group := some g }
+  have hload : loadBeacon s md =
+      (addBeaconHandler { (instantiate s x).1 with procs := aset x bp (instantiate s x).1.procs } x x bp, .ok ()) := by
+    unfold loadBeacon getBeaconProcessByID
+    rw [hr]; simp only; rw [hn]; simp only
+    unfold loadBeaconFromStore
+    simp only [hx, hd]
+    rfl
+  have hprocs : aget x (loadBeacon s md).1.procs = some bp := by
+    rw [hload]; unfold addBeaconHandler
+    simp only [bp]; split <;> simp [aget_aset]
+  have hhash : aget (hexStr g.hash) (loadBeacon s md).1.hashes = some x := by
+    rw [hload]; unfold addBeaconHandler
+    simp only [bp]; split
+    · simp only [aget_aset]; split <;> rfl
+    · simp [aget_aset]
+  have hhttp : aget (hexStr g.hash) (loadBeacon s md).1.http = some ⟨x, bp.gen⟩ := by
+    rw [hload]; unfold addBeaconHandler
+    simp only [bp]; split
+    · simp only [aget_aset]; split <;> rfl
+    · simp [aget_aset]
+  have hroute_id : route (loadBeacon s md).1 (some ⟨x, []⟩) = .ok (x, bp) :=
+    route_ok_iff.2 ⟨by rw [rb_nohash _ _ rfl]; simp [hx], hprocs⟩
+  refine ⟨by rw [hload], bp, hprocs, rfl, hhash, hhttp, ?_, hroute_id, ?_⟩
+  · intro hdx
+    have hdef : isDefaultBeaconID x = true := by rw [hdx]; exact isDefault_defaultBeaconID
+    rw [hload]; unfold addBeaconHandler
+    simp only [bp, hdef, if_true]
+    exact ⟨by simp [aget_aset], by simp [aget_aset]⟩
+  · intro hne
+    refine ⟨?_, ?_, ?_⟩
+    · apply route_ok_iff.2
+      refine ⟨?_, hprocs⟩
+      rw [rb_known _ ⟨"", g.hash⟩ hne x hhash]
+      simp [hx]
+    · apply route_ok_iff.2
+      refine ⟨?_, hprocs⟩
+      rw [rb_known _ ⟨x, g.hash⟩ hne x hhash]
+      have : compareBeaconIDs x x = true := (compare_iff x x).2 rfl
+      simp [this, hx]
+    · rw [((c19_http_default_only _ g.hash).2 hne).1]
+      exact hhttp
+
+
+private theorem loadFromStore_tables_other (s : State) (i : Id) (k : Key)
+    (hk : ∀ g, aget (canon i) s.disk = some (.group g) → k ≠ hexStr g.hash)
+    (hkd : k ≠ defaultChainHash ∨ isDefaultBeaconID i = false) :
+    aget k (loadBeaconFromStore s i).1.hashes = aget k s.hashes ∧
+    aget k (loadBeaconFromStore s i).1.http = aget k s.http := by
+  unfold loadBeaconFromStore
+  simp only
+  split
+  · exact ⟨rfl, rfl⟩
+  · exact ⟨rfl, rfl⟩
+  · exact ⟨rfl, rfl⟩
+  · rename_i g hdisk
+    have h1 := hk g hdisk
+    unfold addBeaconHandler
+    simp only
+    split
+    · rename_i hd
+      have h2 : k ≠ defaultChainHash := by
+        rcases hkd with h | h
+        · exact h
+        · rw [hd] at h; cases h
+      simp only [aget_aset, if_neg h1, if_neg h2]
+      exact ⟨rfl, rfl⟩
+    · simp only [aget_aset, if_neg h1]
+      exact ⟨rfl, rfl⟩
+  · exact ⟨rfl, rfl⟩
+
+/-- **Loading a chain does not disturb the others.** A `LoadBeacon` that resolves to the (not running) id `x` leaves
+every other process in place; every request that was answered — and does not name the chain hash of the group being
+loaded — is still answered by the same process object, and so is every HTTP path. -/
+theorem c19_local (s : State) (hs : Inv s) (md : Option Req) (x : Id)
+    (hr : readBeaconID s md = .ok x) (hn : aget x s.procs = none) :
+    (∀ y, y ≠ x → aget y (loadBeacon s md).1.procs = aget y s.procs) ∧
+    (∀ md' y q, route s md' = .ok (y, q) →
+      (∀ m g, md' = some m → aget x s.disk = some (.group g) → hexStr m.hash ≠ hexStr g.hash) →
+      route (loadBeacon s md).1 md' = .ok (y, q)) ∧
+    (∀ h r, getBeaconHandler s h = some r →
+      (∀ g, aget x s.disk = some (.group g) → hexStr h ≠ hexStr g.hash) →
+      getBeaconHandler (loadBeacon s md).1 h = some r) := by
+  have hx : canon x = x := readBeaconID_canon hr
+  have hload : loadBeacon s md = loadBeaconFromStore s x := by
+    unfold loadBeacon getBeaconProcessByID
+    rw [hr]; simp only; rw [hn]
+  have hprocs : ∀ y, y ≠ x → aget y (loadBeacon s md).1.procs = aget y s.procs := by
+    intro y hy
+    rw [hload]
+    exact loadFromStore_procs_other s x y (by rw [hx]; exact hy)
+  refine ⟨hprocs, ?_, ?_⟩
+  · intro md' y q hroute hnh
+    have hy : y ≠ x := by
+      intro e
+      have := (route_ok_iff.1 hroute).2
+      rw [e, hn] at this; cases this
+    refine route_stable hroute (hprocs y hy) ?_
+    intro m hm hne
+    rw [hload]
+    exact (loadFromStore_tables_other s x _ (fun g hg => hnh m g hm (by rw [hx] at hg; exact hg))
+      (Or.inl (c19_hex_ne_default _))).1
+  · intro h r hsel hnh
+    by_cases he : h = []
+    · rw [(c19_http_default_only _ h).1 he] at hsel ⊢
+      rw [hload]
+      have hnd : isDefaultBeaconID x = false := by
+        cases hd : isDefaultBeaconID x
+        · rfl
+        · -- the default entry exists, so the default process is running: x cannot be the default id
+          obtain ⟨p, g, hp, _, _, hdef, _⟩ := c19_http s hs h r (by rw [(c19_http_default_only _ h).1 he]; exact hsel)
+          have : x = defaultBeaconID := by rw [← hx]; exact canon_of_default hd
+          rw [hdef he, ← this, hn] at hp; cases hp
+      rw [(loadFromStore_tables_other s x _ (fun g _ e => absurd e.symm (c19_hex_ne_default _)) (Or.inr hnd)).2]
+      exact hsel
+    · rw [((c19_http_default_only _ h).2 he).1] at hsel ⊢
+      rw [hload]
+      rw [(loadFromStore_tables_other s x _ (fun g hg => hnh g (by rw [hx] at hg; exact hg))
+        (Or.inl (c19_hex_ne_default _))).2]
+      exact hsel
+
+
+/-! ### non-vacuity: the hypotheses of every theorem are met by a concrete daemon -/
+
+section Examples
+
+private def gD : Group := ⟨"default", [0xdd]⟩
+private def gF : Group := ⟨"foo", [0xff]⟩
+/-- default and foo loaded from group files, bar waiting for its first DKG -/
+private def exEvs : List Ev :=
+  [.disk "default" (some (.group gD)), .load none, .disk "foo" (some (.group gF)), .load (some ⟨"foo", []⟩),
+   .disk "bar" (some .fresh), .load (some ⟨"bar", []⟩)]
+private def exS : State := run State.init exEvs
+private def pD : Proc := ⟨1, some gD⟩
+private def pF : Proc := ⟨1, some gF⟩
+private def pB : Proc := ⟨1, none⟩
+
+private theorem exS_procs : exS.procs = [("bar", pB), ("foo", pF), ("default", pD)] := by decide
+private theorem exS_inv : Inv exS := c19_table_inv exEvs (by decide)
+
+private theorem exS_hashesOK : HashesOK exS := by
+  have key : ∀ i p, aget i exS.procs = some p →
+      (i = "bar" ∧ p = pB) ∨ (i = "foo" ∧ p = pF) ∨ (i = "default" ∧ p = pD) := by
+    intro i p h
+    rw [exS_procs] at h
+    simp only [aget] at h
+    split at h
+    · cases h; exact Or.inl ⟨by assumption, rfl⟩
+    · split at h
+      · cases h; exact Or.inr (Or.inl ⟨by assumption, rfl⟩)
+      · split at h
+        · cases h; exact Or.inr (Or.inr ⟨by assumption, rfl⟩)
+        · cases h
+  constructor
+  · intro i j p q g g' hi hj hg hg' he
+    rcases key i p hi with ⟨rfl, rfl⟩ | ⟨rfl, rfl⟩ | ⟨rfl, rfl⟩ <;>
+    rcases key j q hj with ⟨rfl, rfl⟩ | ⟨rfl, rfl⟩ | ⟨rfl, rfl⟩ <;>
+    first
+    | rfl
+    | (cases hg; done)
+    | (cases hg'; done)
+    | (cases hg; cases hg'; exact absurd he (by decide))
+  · intro i p g hi hg
+    rcases key i p hi with ⟨rfl, rfl⟩ | ⟨rfl, rfl⟩ | ⟨rfl, rfl⟩
+    · cases hg
+    · cases hg; decide
+    · cases hg; decide
+
+-- c19_table_inv / c19_table_inv_partial (with a DKG completion that keeps, resp. sets for the first time, the hash)
+example : Inv exS := exS_inv
+example : Inv (run exS [.dkg "bar" ⟨"bar", [0xbb]⟩, .dkg "foo" gF]) := by
+  refine c19_table_inv_partial exS exS_inv _ ⟨?_, ?_, trivial⟩
+  · intro p g0 hp hg0
+    have : aget "bar" exS.procs = some pB := by decide
+    rw [this] at hp; cases hp; cases hg0
+  · intro p g0 hp hg0
+    have : aget "foo" (step exS (.dkg "bar" ⟨"bar", [0xbb]⟩)).1.procs = some pF := by decide
+    rw [this] at hp; cases hp; cases hg0; rfl
+-- c19_sound: a request that is answered, and what the theorem says about it
+example : route exS (some ⟨"", [0xff]⟩) = .ok ("foo", pF) := by decide
+example : ∃ g, pF.group = some g ∧ hexStr g.hash = "ff" :=
+  ((c19_sound exS exS_inv _ _ _ (by decide : route exS (some ⟨"", [0xff]⟩) = .ok ("foo", pF))).2.2.1
+    ⟨"", [0xff]⟩ rfl (by decide) "foo" (by decide)).2
+-- the pending-DKG exception: unknown hash, process without group named by the id
+example : route exS (some ⟨"bar", [0x01]⟩) = .ok ("bar", pB) := by decide
+example : route exS (some ⟨"foo", [0x01]⟩) = .error .unknownHash := by decide
+-- c19_mismatch_rejected
+example : route exS (some ⟨"bar", [0xff]⟩) = .error .mismatch :=
+  c19_mismatch_rejected exS ⟨"bar", [0xff]⟩ "foo" (by decide) (by decide) (by decide) (by decide)
+-- c19_hash_alone_selects
+example : ∃ p g, route exS (some ⟨"", [0xdd]⟩) = .ok (canon "default", p) ∧ p.group = some g ∧ hexStr g.hash = "dd" :=
+  c19_hash_alone_selects exS exS_inv ⟨"", [0xdd]⟩ "default" (by decide) (by decide) (Or.inl rfl)
+-- c19_neither_is_default
+example : route exS none = .ok ("default", pD) := by rw [c19_neither_is_default exS none (Or.inl rfl)]; decide
+example : route exS (some ⟨"", []⟩) = .ok ("default", pD) := by
+  rw [c19_neither_is_default exS _ (Or.inr rfl)]; decide
+-- c19_http / c19_http_default_only
+example : getBeaconHandler exS [0xff] = some ⟨"foo", 1⟩ := by decide
+example : getBeaconHandler exS [] = some ⟨"default", 1⟩ := by decide
+example : getBeaconHandler exS [0x64, 0x65] = none := by decide
+example : ∃ p g, aget "foo" exS.procs = some p ∧ p.gen = 1 ∧ p.group = some g ∧
+    (([0xff] : Bytes) = [] → "foo" = defaultBeaconID) ∧ (([0xff] : Bytes) ≠ [] → hexStr g.hash = hexStr [0xff]) :=
+  c19_http exS exS_inv [0xff] ⟨"foo", 1⟩ (by decide)
+-- c19_stop_unresolves / c19_remove_local: stop foo by its hash
+example : aget "foo" (shutdown exS (some ⟨"foo", [0xff]⟩)).1.procs = none :=
+  (c19_stop_unresolves exS exS_inv (some ⟨"foo", [0xff]⟩) "foo" pF (by decide)).2.1
+example : route (shutdown exS (some ⟨"foo", [0xff]⟩)).1 (some ⟨"", [0xdd]⟩) = .ok ("default", pD) :=
+  (c19_remove_local exS exS_inv exS_hashesOK (some ⟨"foo", [0xff]⟩) "foo" pF (by decide)).2.1
+    _ "default" pD (by decide) (by decide)
+example : route (shutdown exS (some ⟨"foo", [0xff]⟩)).1 (some ⟨"", [0xff]⟩) = .error .unknownHash := by decide
+-- c19_load_registers / c19_local: reload foo with another group after the stop
+private def gF2 : Group := ⟨"foo", [0xf2]⟩
+private def exS2 : State := run exS [.stop (some ⟨"foo", []⟩), .disk "foo" (some (.group gF2))]
+example : (loadBeacon exS2 (some ⟨"foo", []⟩)).2 = .ok () :=
+  (c19_load_registers exS2 (some ⟨"foo", []⟩) "foo" gF2 (by decide) (by decide) (by decide)).1
+example : route (loadBeacon exS2 (some ⟨"foo", []⟩)).1 (some ⟨"", [0xf2]⟩) = .ok ("foo", ⟨2, some gF2⟩) := by decide
+example : route (loadBeacon exS2 (some ⟨"foo", []⟩)).1 (some ⟨"", [0xff]⟩) = .error .unknownHash := by decide
+example : route (loadBeacon exS2 (some ⟨"foo", []⟩)).1 (some ⟨"default", [0xdd]⟩) = .ok ("default", pD) :=
+  (c19_local exS2 (c19_table_inv_partial exS exS_inv _ ⟨trivial, trivial, trivial⟩) (some ⟨"foo", []⟩) "foo"
+    (by decide) (by decide)).2.1 _ "default" pD (by decide)
+    (by intro m g hm hg; cases hm; have : aget "foo" exS2.disk = some (.group gF2) := by decide
+        rw [this] at hg; cases hg; decide)
+
+end Examples
 
 end Drand.Daemon
